@@ -16,6 +16,7 @@ import impl
 from common import driver_batch
 
 ID = 'C12'
+EXTRA_MODULES = ['Mistletoe.Proofs.DocShape', 'propsdriver']
 RULE = ('spec corpus, mutations, splices, random documents, random strings and a malformed stream x the token sets of '
         'the Html, Markdown, LaTeX and XWiki20 renderers; traverse options klass in {None, 6 classes} x depth in '
         '{None,0,1,2,3} x include_source; distinct by (renderer, text); non-trivial when the tree has depth >= 2')
@@ -23,10 +24,11 @@ TRUSTED = ['json.dumps emits valid JSON for the dict it is given (the run re-par
            'object identity (parent links) is checked on the real object graph at run time, not modelled']
 ASSUMPTIONS = ['child-kind discipline, parent links and scalar ranges of parsed trees are run-time checks by the '
                'exporter over generated inputs (the Lean AST type enforces kinds, so a theorem would be vacuous)']
-PARTIAL = ['scalar ranges of parsed documents: heading level 1-6 and non-empty lists with well-formed leaders are proved for '
-           'every block-phase buffer (C12_heading_level_range, C12_list_items, from Proofs/DocTotal.lean); child kinds, exactly '
-           'one RawText in code/HTML blocks and parent links by object identity are enforced by the typed AST of the model and '
-           'checked on the real object graph by the exporter (run-time shape checks over generated inputs): exploration']
+PARTIAL = ['the kind discipline and the scalar ranges are proved for every parsed document of the MODEL (C12_parsed_shape: which '
+           'kinds of blocks sit in List / ListItem / Quote / Table / TableRow, list start agreeing with its first marker, heading '
+           'levels); that inline tokens hold no blocks, leaf blocks hold inline tokens and code/HTML blocks exactly one RawText is '
+           'typing of the model\'s AST, enforced on the REAL object graph by the exporter; the conclusion of the theorem is evaluated '
+           'on real exported trees each run (c12.shape); parent links by object identity are run-time checks of the exporter']
 
 TOKEN_SETS = ['HtmlRenderer', 'MarkdownRenderer', 'LaTeXRenderer', 'XWiki20Renderer']
 
@@ -218,6 +220,20 @@ def units(ctx):
     model = driver_batch(reqs)
     for (unit, case), e, m in zip(meta, exp, model):
         ctx.compare(unit, case, m, e)
+    # the conclusion of C12_parsed_shape on REAL token trees
+    import export
+    sreq, smeta = [], []
+    for i, (t, rn) in enumerate(cases):
+        rname = rn or TOKEN_SETS[i % len(TOKEN_SETS)]
+        try:
+            doc = impl.parse_only(rname, {}, t)
+            tree = export.export_doc(doc, check_parent=False)
+        except Exception:
+            continue
+        sreq.append({'op': 'c12.shape', 'doc': tree})
+        smeta.append({'text': t, 'renderer': rname})
+    for case, r in zip(smeta, driver_batch(sreq, binary=common.PROPS_DRIVER)):
+        ctx.compare('c12.shape', case, True, r.get('shapeOk') if isinstance(r, dict) else r, kind=case['renderer'])
 
 
 def explore(ctx, seeds):
